@@ -255,7 +255,9 @@ func c16Check(c c16Case, tr *harness.Trace) string {
 		if a.err {
 			return ""
 		}
-		if a.trunc != got.trunc || len(a.values) != len(got.values) {
+		// the program stops counting at the cap: a loop of exactly c16Cap
+		// iterations and a longer one look the same from outside
+		if len(a.values) != len(got.values) || (len(got.values) < c16Cap && a.trunc != got.trunc) {
 			continue
 		}
 		same := true
